@@ -3,7 +3,7 @@
 wiring: the shape it derives (length = number of rows, width = length of the first row), that the caller's three grids and
 the three probabilities reach `write_robots` unchanged and in that function's parameter order (tile, robot, light -- the
 function itself receives them as robot, light, tile), that write_robots' precondition (a rectangular board, arrows 0..3)
-follows from a rectangular non-empty board, and what the file name states."""
+follows from a rectangular non-empty board."""
 from pyvc.ty import *
 from .roberta_generator import LLI, BOARD_OK
 
@@ -28,20 +28,16 @@ contract('get_max_from_matrix',
 
 _SUB = lambda c: c.replace('length', 'len(moves)').replace('width', 'len(moves[0])')
 RECT = [_SUB(c) for c in BOARD_OK]
-NAME = ("'inputs/manual_robot' + '_' + 'w' + str(len(c_moves[0])) + '_' + 'l' + str(len(c_moves)) + '_' + 'r' + str(c_maxr) + '_' + "
-        "'rb' + PTS(c_rb) + '_' + 'lb' + PTS(c_lb) + '_' + 'tb' + PTS(c_tb) + '_' + ('force_down' if c_fd else '') + '.py'")
 contract('create_sg_from_board', float_mode='fp64',
          params={'moves': LLI, 'rewards': LLI, 'loose_tiles': LLI, 'prob_robot_break': FP, 'prob_light_break': FP, 'prob_tile_break': FP},
          locals={'length': INT, 'width': INT, 'max_reward': INT, 'max_move': INT, 'force_down': BOOL, 'file_name': STR},
          requires=RECT + [f"0 < {q} and {q} < 1" for q in ('prob_robot_break', 'prob_light_break', 'prob_tile_break')], ensures=[], modifies={},
          alias_for_asserts={'c_moves': 'moves', 'c_rewards': 'rewards', 'c_loose': 'loose_tiles',
-                            'c_maxr': 'max_reward', 'c_fd': 'force_down',
                             'c_tb': 'prob_tile_break', 'c_rb': 'prob_robot_break', 'c_lb': 'prob_light_break'},
          call_asserts={'write_robots': ["length == len(c_moves)", "width == len(c_moves[0])", "moves == c_moves", "rewards == c_rewards", "loose_tiles == c_loose",
-                                        "prob_tile_break == real(c_tb)", "prob_robot_break == real(c_rb)", "prob_light_break == real(c_lb)",
-                                        "file_name == " + NAME,
-                                        "forall(a, 0, len(c_rewards), forall(b, 0, len(c_rewards[a]), c_rewards[a][b] <= c_maxr))",
-                                        "c_fd == exists(a, 0, len(c_moves), exists(b, 0, len(c_moves[a]), c_moves[a][b] == 3))"]},
+                                        "prob_tile_break == real(c_tb)", "prob_robot_break == real(c_rb)", "prob_light_break == real(c_lb)"]},
+         # (what the file of a hand-made board is CALLED is not constrained: no property speaks about it -- C17 is about the
+         # generator's own files, whose names carry a seed)
          calls_exactly=['get_max_from_matrix', 'get_max_from_matrix'] + ['prob_to_str'] * 3 + ['write_robots'],
          list_eq_structural=True,
          props=['C08', 'C11'])
